@@ -90,6 +90,7 @@ def splitOnCommas (t : List Char) : List (List Char) := splitCommasGo t [] 0 []
 
 inductive ParamDiag
   | order (name : List Char) | badName (name : List Char) | keyword (name : List Char) | duplicate (name : List Char)
+  | emptyDefault (name : List Char)
   deriving Repr, DecidableEq
 
 def isIdStartA (c : Char) : Bool := c.isAlpha || c == '_'
@@ -121,7 +122,8 @@ def parseParamsGo : List (List Char) → Bool → List (List Char) → List Para
           let e ← pyIndexOf '=' part
           pure (stripL (part.take e), some (stripL (part.drop (e + 1))), true, false)
         else pure (part, (none : Option (List Char)), seenOpt, seenOpt)
-      if orderErr then .ok (.error (.order name))
+      if dflt == some [] then .ok (.error (.emptyDefault name))
+      else if orderErr then .ok (.error (.order name))
       else if !isIdentifierA name then .ok (.error (.badName name))
       else if pyKeywords.contains (String.ofList name) then .ok (.error (.keyword name))
       else if names.contains name then .ok (.error (.duplicate name))
